@@ -79,7 +79,11 @@ asn1f_fix_enum(arg_t *arg) {
 				eval = ev->value->value.v_integer;
 				break;
 			case ATV_REFERENCED:
-				FATAL("HERE HERE HERE", 1);
+				FATAL("ENUMERATED type %s at line %d: "
+					"element %s at line %d is numbered by a "
+					"value reference, which is not supported",
+					expr->Identifier, expr->_lineno,
+					ev->Identifier, ev->_lineno);
 				rvalue = -1;
 				continue;
 				break;
